@@ -129,6 +129,11 @@ def exact_trees(run, n_cases):
         except zl.Inexact:
             run.count("tree_discarded_inexact")
             continue
+        except Exception as ex:  # noqa -- the implementation raised: an observation; keep going so that a value-level failing input can be found
+            run.count("tree_impl_raised")
+            if not hasattr(run, "first_impl_exc"):
+                run.first_impl_exc = ex
+            continue
         leaves = zl.leaves(tree)
         nontrivial = any(l["kind"] in ("map", "ctm") and (l.get("a0") or l.get("a1")) for l in leaves)
         run.add_case(["tree", tree, ps, E, q], nontrivial)
@@ -615,6 +620,8 @@ def main(tier, replay=None):
                        "case": meta[cfail[0]], "goal": goals[cfail[0]][0], "error": cerrs.get(cfail[0], "")[-400:]}, no_input=True)
     elif not proof_ok:
         run.violation({"kind": "proof", "broken": run.proof_problem}, no_input=True)
+    if not run.violations and hasattr(run, "first_impl_exc"):
+        raise run.first_impl_exc      # reported by run_check.py as "implementation raised" (no failing input found)
     return run.finish("proof")
 
 
